@@ -705,3 +705,7 @@ add('c10-dilute-on-a-shallow-copy', ['C10', 'C04'], 'fire', 'Container.dilute',
     'the copy shares the contents dictionary with the original')
 add('c02-total-kept-as-cached-property', ['C02', 'C10'], 'fire', 'Container.has_liquid',
     '@cache', '@cached_property', 'kept in the instance dictionary and copied with the object')
+add('c11-capacity-error-rescued', ['C11', 'C03', 'C19'], 'fire', 'Container.fill_to',
+    "result = self._add(solvent, f'{required_quantity} {quantity_unit}')",
+    "try:\n        result = self._add(solvent, f'{required_quantity} {quantity_unit}')\n    except ValueError:\n        result = self._add(solvent, '0 L')",
+    'the refusal of the add is converted into a result')
